@@ -192,9 +192,10 @@ class Sym:
     def havoc(self, st, h):
         mods, deref = self.loop_mods(h)
         for l in sorted(mods):
-            if 1 <= l <= self.b.j['arg_count'] and False:
-                continue
-            st.env[l] = ('phi', h, l, self.read_local(st, l))
+            cur = self.read_local(st, l)
+            if cur[0] == 'agg' and cur[1] == 'closure':
+                continue        # a closure borrowed mutably is still the same closure (its captured state lives elsewhere)
+            st.env[l] = ('phi', h, l, cur)
         if deref:
             st.heap = {}
         # memory the loop writes (or borrows mutably) below an input: later reads of it are new values
@@ -617,7 +618,7 @@ class Sym:
                     # the borrowed place lives in memory reachable from an input: later reads below it are new values
                     st.dirty.append((tstr(pt, 100000), blk))
                     st.heap = {k: x for k, x in st.heap.items() if not (k == tstr(pt, 100000) or k.startswith(tstr(pt, 100000)))}
-                else:
+                elif not (self.read_local(st, l)[0] == 'agg' and self.read_local(st, l)[1] == 'closure'):
                     st.env[l] = ('upd', self.read_local(st, l), blk)
         return done(v)
 
@@ -955,7 +956,7 @@ def _loop_rows(facts, body, header, env_extra=None, unfold='default'):
         return tuple(out)
     if arrive:
         for l, v in arrive[0].env.items():
-            if l in mods or l == 0:
+            if (l in mods and not (v[0] == 'agg' and v[1] == 'closure')) or l == 0:
                 continue
             k = cstr(v)
             if all(l in r.env and cstr(r.env[l]) == k for r in arrive[1:]):
